@@ -341,6 +341,13 @@ func (u *upstream) handleRedirection(req *simpleRequest, resp *RespValue) {
 		))
 		u.MakeRequestToHost(hostAddr, askingReq)
 		u.MakeRequestToHost(hostAddr, req)
+	default:
+		// It isn't a redirection in fact: the caller compares the prefix
+		// with unicode case folding (e.g. "A\u017fK" equals "ASK"), but the
+		// lower case of it matches nothing here. Never leave the request
+		// unanswered.
+		req.SetResponse(resp)
+		return
 	}
 	u.triggerSlotsRefresh()
 }
